@@ -958,3 +958,72 @@ def k21_handle_glue(mir, rep, srcdir):
     rep.witnesses.append("handle glue: %s" % sorted(seen))
     rep.samples.append({"query": Q, "claim": "borrow_mut / From<Handle> for Input / TryFrom<Handle> for Cow / Ref::prefix over Box<dyn Read>: rewind before every use, "
                         "captured bytes (from 0) chained before the source, source errors passed through"})
+
+
+# -------------------------------------------------------------------------------------------------
+# K13b: the JSON and MessagePack trials look at the FIRST value only, for slices and readers alike
+# -------------------------------------------------------------------------------------------------
+
+def k13b_first_value_only(mir, rep):
+    """json::match_input_{str,reader} and msgpack::match_input_{buffer,reader}: build one deserializer over the given input,
+    deserialize exactly one IgnoredAny from it and report exactly that outcome - so that a slice and a reader holding
+    the same bytes are judged on the same thing (C09: detected as the same format from a slice and from a reader)."""
+    Q = "K13.first_value"
+    fns = [f for n, f in mir.functions.items() if re.search(r"(^|::)match_input_(str|buffer|reader)$", n)]
+    if len(fns) != 4:
+        raise Inconclusive("expected 4 match_input_* functions, found %d" % len(fns))
+    done = 0
+    for fn in fns:
+        is_mp = "rmp_serde" in fn.sig
+
+        def h(ex, p, name, argv, dst, dst_type, cur_fn):
+            if name == "drop":
+                return None
+            if re.search(r"Deserializer::<.*>::(from_str|from_reader|from_read_ref|new)$", name):
+                d = fresh("deserializer")
+                p.trace.append(("new_de", argv[0], d))
+                return d
+            if re.search(r"set_max_depth$", name):
+                p.trace.append(("max_depth", argv[0], argv[1]))
+                return fresh("unit")
+            if re.search(r"<IgnoredAny as Deserialize<'_>>::deserialize::<", name):
+                r = fresh("first_value")
+                p.pc.append(z3.Or(disc(r) == 0, disc(r) == 1))
+                p.trace.append(("deserialize", argv[0], r))
+                return r
+            if re.search(r"Result::<IgnoredAny, .*>::and::<\(\)>$", name):
+                r = fresh("anded")
+                p.pc.append(disc(r) == z3.If(disc(argv[0]) == 0, disc(argv[1]), 1))
+                p.pc.append(z3.Implies(disc(argv[0]) == 1, proj(r, "Err.0") == proj(argv[0], "Err.0")))
+                return r
+            if re.search(r"Deserializer|StreamDeserializer|into_iter|::end$|try_for_each|Iterator", name):
+                p.trace.append(("other_use", re.sub(r"<.*", "", name)[:60]))
+                return None
+            return None
+        ex = X.Exec(mir, h)
+        inp = fresh("input")
+
+        def fin(p, how, value, fn=fn, ex=ex, inp=inp, is_mp=is_mp):
+            if how == "dead":
+                return
+            news = [t for t in p.trace if t[0] == "new_de"]
+            des = [t for t in p.trace if t[0] == "deserialize"]
+            other = [t for t in p.trace if t[0] == "other_use"]
+            short = fn.name.split("::")[-1]
+            w = {"kind": "trial", "fn": fn.name}
+            if how != "return" or len(news) != 1 or len(des) != 1 or other or not ex.valid(p, z3.And(news[0][1] == inp, des[0][1] == news[0][2]))[0]:
+                rep.bad(Q, "%s (%s) builds one deserializer over its input and takes exactly ONE value from it: detection judges the first value only, "
+                           "for a slice exactly as for a reader" % (short, "MessagePack" if is_mp else "JSON"), dict(w, uses=[t[1] for t in other]))
+                return
+            r = des[0][2]
+            if not ex.valid(p, z3.And(disc(value) == disc(r), z3.Implies(disc(r) == 1, proj(value, "Err.0") == proj(r, "Err.0"))))[0]:
+                rep.bad(Q, "%s reports exactly the outcome of that one value" % short, w)
+            if is_mp:
+                md = [t for t in p.trace if t[0] == "max_depth"]
+                if len(md) != 1 or not ex.valid(p, md[0][1] == news[0][2])[0] or "DEPTH_LIMIT" not in str(getattr(md[0][2], "mir_const", "")) and not ex.valid(p, asint(md[0][2]) == 1024)[0]:
+                    rep.bad(Q, "%s applies DEPTH_LIMIT to the deserializer it uses" % short, w)
+        ex.run(fn, X.Path(), [inp], fin)
+        rep.absorb(ex)
+        done += 1
+    rep.witnesses.append("first-value trials: %d functions" % done)
+    rep.samples.append({"query": Q, "claim": "json/msgpack match_input_{str,buffer,reader}: one deserializer, one IgnoredAny, that outcome"})
